@@ -540,7 +540,22 @@ def m3(ctx, al, count, maxlen):
         elif tool == "amdf":
             lag, size = rng.randint(1, 8), rng.randint(1, 12)
             zero = rng.choice([Fraction(0), Fraction(0), q4(rng)])
-            err, got = observe(lambda: al.amdf(lag, size)(container(x, kind, al), zero=number(zero, nk)))
+            if j % 2:
+                # one amdf filter object, two signals consumed in turns (as with maverage above)
+                xf2 = [q4(rng) for _ in range(rng.randint(3, maxlen))]
+                x2 = [number(v, nk) for v in xf2]
+                flt = al.amdf(lag, size)
+                (err, got), (err2, got2) = observe_interleaved(
+                    lambda: flt(container(x, kind, al), zero=number(zero, nk)),
+                    lambda: flt(container(x2, kind, al), zero=number(zero, nk)))
+                out2, near2 = snap_all(got2)
+                add(dict(base, x=[rat(v) for v in xf2], lag=lag, size=size, zero=rat(zero), out=out2, near=near2,
+                         err=err2),
+                    dict(info, x=[str(v) for v in xf2][:40],
+                         call="flt = amdf(%d, %d); flt(other) interleaved with flt(x)" % (lag, size),
+                         err=err2, observed=[repr(g) for g in got2][:40]))
+            else:
+                err, got = observe(lambda: al.amdf(lag, size)(container(x, kind, al), zero=number(zero, nk)))
             out, near = snap_all(got)
             add(dict(base, lag=lag, size=size, zero=rat(zero), out=out, near=near, err=err),
                 dict(info, call="amdf(%d, %d)(x, zero=%s)" % (lag, size, zero), err=err,
